@@ -364,15 +364,12 @@ func TestC12DecodeList(t *testing.T) {
 	// lengths
 	for _, d := range []string{"sig", "pk", "sk", "kp", "mini", "edbytes"} {
 		for n := 0; n <= 130; n++ {
-			for _, fill := range []byte{0x00, 0x80} {
-				b := bytes.Repeat([]byte{fill}, n)
-				if n > 0 {
-					b[n-1] |= 0x40 // clamped-looking / marked-looking last byte
-				}
-				if fill == 0x80 && n > 0 {
-					b[n-1] = 0x80
-				}
-				add(d, "length-sweep", b)
+			// fills chosen so that a 64/32/64/96-byte prefix (or zero-padded
+			// extension) would be acceptable to the respective decoder:
+			// 0x00: zero key / identity point; 0x80: marked signature with a
+			// small scalar; 0x40: clamped Ed25519 scalar
+			for _, fill := range []byte{0x00, 0x80, 0x40} {
+				add(d, "length-sweep", bytes.Repeat([]byte{fill}, n))
 			}
 		}
 	}
